@@ -6,11 +6,22 @@ open Pycoin.Spec Pycoin.Gen.VM CondStack Consensus
 
 variable (chk : Bytes → Bytes → Bytes → Bool → Bool) (cfg : Config)
 
+theorem getScriptOp_facts (rest : Bytes) (op : Nat) (d r : Bytes) (sz : Nat)
+    (h : getScriptOp rest = some (op, d, r, sz)) : op < 256 ∧ (0x4e < op → d = []) := by
+  cases rest with
+  | nil => simp [getScriptOp] at h
+  | cons b tl =>
+    have hopb := getScriptOp_op b tl op d r sz h
+    refine ⟨by rw [hopb]; exact b.toNat_lt, fun ho => ?_⟩
+    rw [spec_other b tl (by rw [← hopb]; exact ho)] at h
+    simp only [Option.some.injEq, Prod.mk.injEq] at h
+    exact h.2.1.symm
+
 /-- the states Core's loop can be in, started on `stack0` (any instruction sequence) -/
 inductive Reach (stack0 : List Bytes) : Consensus.State → Prop
   | init : Reach stack0 { stack := stack0 }
   | step {st st' : Consensus.State} {op : Nat} {data : Bytes} {pcNext : Nat} :
-      Reach stack0 st → specStep chk cfg st op data pcNext = .ok st' → Reach stack0 st'
+      Reach stack0 st → op < 256 → (0x4e < op → data = []) → specStep chk cfg st op data pcNext = .ok st' → Reach stack0 st'
 
 /-- **signature deletion is shared**: in every state of Core's run, for any signatures taken from its stack, pycoin's
 `_delete_signature` walk (bottom-most signature first) and Core's `FindAndDelete` (top-most first) produce the same
@@ -79,7 +90,8 @@ theorem loop_eq_all (hw : hasFlag cfg.flags VERIFY_MINIMALIF = true → cfg.witn
           have hm := (toOption_ok_iff _ _).mp hi
           simp only [hm, hs]
           rw [hdrop]
-          exact ih st' (pc + size) (Reach.step hreach hs) hpc2
+          obtain ⟨hlt, hdat⟩ := getScriptOp_facts _ _ _ _ _ hg
+          exact ih st' (pc + size) (Reach.step hreach hlt hdat hs) hpc2
     · have hpc' : pc = cfg.script.length := by omega
       subst hpc'
       have h0 : ¬ (absS st cfg.script.length).pc < cfg.script.length := Nat.lt_irrefl _
